@@ -347,7 +347,9 @@ def real_algos():
         rng = np.random.default_rng(4242)
         data, fn, *_ = gen.sim_response(rng, 3, 6000, 100.0, m=3)
         ss = SingleSetup(data, 100.0)
-        a, p, f = SSIcov(name="ssi", br=8, ordmax=14), pLSCF(name="plscf", ordmax=8, nxseg=512), FDD(name="fdd", nxseg=512)
+        # (the SSI analysis is configured with ordmin > 0 and with uncertainty bounds: a pick still means the clicked order, and the
+        # bounds handed on are those of the picked poles)
+        a, p, f = SSIcov(name="ssi", br=8, ordmax=14, ordmin=4, calc_unc=True, nb=10), pLSCF(name="plscf", ordmax=8, nxseg=512, ordmin=2), FDD(name="fdd", nxseg=512)
         ss.add_algorithms(a, p, f)
         ss.run_all()
         _CACHE["a"] = (ss, {"SSI": a, "pLSCF": p, "FDD": f}, fn)
@@ -473,6 +475,16 @@ def run_random(ctx, case):
         got = collections.Counter(zip(Fn, [int(x) for x in oo])) if len(Fn) == len(oo) else None
         ctx.check(got == collections.Counter(s2.model), "handover:extracted_modes_not_the_picked_pairs",
                   lambda: f"{plot} mpe_from_plot: (Fn, order_out) = {list(zip(Fn, oo.tolist()))}, picked pairs {sorted(s2.model)}")
+        if got == collections.Counter(s2.model) and getattr(r, "Fn_poles_cov", None) is not None and getattr(r, "Fn_cov", None) is not None:
+            # the uncertainty bounds of every extracted mode are those of the picked pole
+            ctx.ev("hand-over: bounds of the picked poles")
+            Fc_t, Xc_t, F_t = np.asarray(r.Fn_poles_cov), np.asarray(r.Xi_poles_cov), np.asarray(r.Fn_poles)
+            okc = True
+            for k_, (f_, o_) in enumerate(zip(Fn, [int(x) for x in oo])):
+                rows_ = np.where(F_t[:, o_] == f_)[0]
+                okc = okc and len(rows_) >= 1 and any(np.isclose(np.atleast_1d(r.Fn_cov)[k_], Fc_t[i_, o_], rtol=1e-12, equal_nan=True)
+                                                       and np.isclose(np.atleast_1d(r.Xi_cov)[k_], Xc_t[i_, o_], rtol=1e-12, equal_nan=True) for i_ in rows_)
+            ctx.check(okc, "handover:bounds_not_those_of_the_picked_poles", lambda: f"{plot} mpe_from_plot: Fn_cov = {np.atleast_1d(r.Fn_cov)} are not the table entries of the picked poles {sorted(s2.model)}")
     ctx.nontrivial(("handover", plot, str(s2.hist)))
     import matplotlib.pyplot as plt
     plt.close("all")
